@@ -1011,6 +1011,83 @@ def o_schedules(case, T):
         T.nontrivial()
 
 
+def o_joint(case, T):
+    """Several reprojections of the SAME dask source that differ only in one parameter (destination nodata,
+    resampling, destination grid), evaluated together in one graph / one dask.compute call: each must still equal
+    the in-memory result for its own parameters ('same result ... with the same parameters ... every execution
+    order' - tasks of different calls must not be confused with each other)."""
+    import dask
+    import dask.array as da
+    from odc.geo.xr import wrap_xr, xr_reproject
+
+    if _backend_identity(case["src"]) or _backend_identity(case["dst"]):
+        T.exclude("backend_identity_transform")
+        return
+    sg, dg = _mk_gbox(case["src"]), _mk_gbox(case["dst"])
+    ny, nx = case["src"]["shape"]
+    data = _mk_data(case["dtype"], (ny, nx))
+    src_nd = case["nodata"]["src"]
+    kw_wrap = {} if src_nd is None else {"nodata": src_nd}
+    chunks = (_expand_chunks(case["src_chunks"][0], ny), _expand_chunks(case["src_chunks"][1], nx))
+    xx_np = wrap_xr(data, sg, **kw_wrap)
+    xx_da = wrap_xr(da.from_array(data.copy(), chunks=chunks), sg, **kw_wrap)
+    isf = case["dtype"].startswith("f")
+    variants = []
+    for v in case["variants"]:
+        kw = {"resampling": v.get("resampling", "nearest")}
+        if v.get("dst_nodata") is not None:
+            kw["dst_nodata"] = v["dst_nodata"]
+        variants.append(kw)
+    lazies, wholes = [], []
+    for kw in variants:
+        kw_da = dict(kw)
+        if case["dst_chunks"] is not None:
+            kw_da["chunks"] = tuple(case["dst_chunks"])
+        lazies.append(xr_reproject(xx_da, dg, **kw_da))
+        wholes.append(xr_reproject(xx_np, dg, **kw))
+    with dask.config.set({"optimization.fuse.active": False}):
+        if case["sched"][0] == "threads":
+            got = dask.compute(*lazies, scheduler="threads", num_workers=int(case["sched"][1]))
+        else:
+            got = dask.compute(*lazies, scheduler=_random_order_get(int(case["sched"][1])))
+    amb = None
+    for kw, w, g in zip(variants, wholes, got):
+        same = _same(w.values, g.values)
+        if kw["resampling"] != "nearest":
+            # values of other kernels are not claimed pixel for pixel: compare only where both are fill or both not
+            fv = kw.get("dst_nodata", src_nd)
+            fv = (float("nan") if isf else 0) if fv is None else fv
+            same = _is_fill(w.values, fv) == _is_fill(g.values, fv)
+        else:
+            if amb is None:
+                xs, ys, _ = _src_coords_same_crs(case)  # full 2-d arrays of source coordinates
+                amb = (np.abs(xs - np.round(xs)) < 1e-6) | (np.abs(ys - np.round(ys)) < 1e-6)
+            same = same | amb
+        if not same.all():
+            idx = _where(~same, 1)[0]
+            raise Violation(
+                "computed together with %d other reprojection(s) of the same source, the result for %r differs from the in-memory result at %r: %r vs %r (%d px; all variants %r)"
+                % (len(variants) - 1, kw, idx, g.values[idx].item(), w.values[idx].item(), int((~same).sum()), variants)
+            )
+    T.nontrivial()
+    T.cls("variants_%d" % len(variants))
+    T.cls("first_sched:" + case["sched"][0])
+
+
+@st.composite
+def s_joint(draw):
+    case = draw(s_same_linear(places=["contained", "partial", "partial", "covers", "disjoint"]))
+    case["nt"] = 0
+    code = case["dtype"]
+    nds = {"u1": [0, 255, 7], "i1": [-128, 0, 5], "u2": [0, 65535, 9], "i2": [-999, -1, 0], "i4": [-999, -1, 0], "f4": [-999.0, -1.0, 0.0], "f8": [-999.0, -1.0, 0.0]}[code]
+    k = draw(st.integers(2, 3))
+    variants = [{"dst_nodata": nd} for nd in draw(st.permutations(nds))[:k]]
+    if draw(st.booleans()):
+        variants.append({"dst_nodata": variants[0]["dst_nodata"], "resampling": "bilinear"})
+    case["variants"] = variants
+    return case
+
+
 def _is_d20(sub, case, msg):
     """D20: float data, no nodata anywhere, chunked result holds 0 instead of NaN where nothing reaches."""
     nd = case.get("nodata", {})
@@ -1037,6 +1114,7 @@ def build(chk: Check) -> None:
                                s_same_linear(places=["disjoint", "touching"], klasses=["scale_k", "mirror_xy", "shift_int"]),
                                s_cross(far_apart=True)),
             n={"quick": 160, "thorough": 3000}, budget_s={"quick": 30, "thorough": 90}, shrink=False)
+    chk.sub("joint_compute", o_joint, strategy=s_joint(), n={"quick": 150, "thorough": 4000}, budget_s={"quick": 40, "thorough": 200}, shrink=False)
     chk.sub("schedules", o_schedules,
             strategy=st.one_of(s_same_linear(places=["partial", "covers", "contained"]), s_same_rotated(), s_cross()).map(_multi_chunks),
             n={"quick": 80, "thorough": 2000}, budget_s={"quick": 30, "thorough": 100}, shrink=False)
